@@ -107,6 +107,8 @@ static void add_pair(const char *path, MPT_INTERFACE(convertable) *val)
 	else hex_into(p + plen + 1, (const uint8_t *) txt, vlen);
 	pairs[npairs++] = p;
 }
+static char gfirst[1024];   /* name of the first top-level element of the global tree */
+static int gfirst_len;
 struct walk_ctx { char path[8192]; size_t len; int depth; };
 static int walk_item(void *ptr, const MPT_STRUCT(identifier) *id, MPT_INTERFACE(convertable) *val, const MPT_INTERFACE(collection) *sub)
 {
@@ -114,6 +116,13 @@ static int walk_item(void *ptr, const MPT_STRUCT(identifier) *id, MPT_INTERFACE(
 	size_t old = c->len;
 	const char *nm = name_hex(id);
 	size_t n = strlen(nm);
+	if (!c->depth && gfirst_len < 0 && id->_len && id->_len < sizeof(gfirst)) {
+		const char *d = mpt_identifier_data(id);
+		if (d && !d[id->_len - 1] && strlen(d) == (size_t) id->_len - 1) {
+			memcpy(gfirst, d, id->_len);
+			gfirst_len = id->_len - 1;
+		}
+	}
 	if (c->len + n + 2 >= sizeof(c->path) || c->depth > 200) return 0;
 	if (c->len) c->path[c->len++] = '/';
 	memcpy(c->path + c->len, nm, n + 1);
@@ -172,6 +181,41 @@ static void walk_nodes(MPT_STRUCT(node) *n, MPT_STRUCT(node) *parent, struct wal
 		c->path[old] = 0;
 	}
 }
+/* link check of the global tree (C14's clauses on the tree the views work on): the first top-level element is
+ * looked up through a view on its name, the walk goes over the node links from the head of its list */
+static const char *gbroken;
+static void check_links(MPT_STRUCT(node) *n, MPT_STRUCT(node) *parent, int depth)
+{
+	MPT_STRUCT(node) *prev = 0;
+	int guard = 0;
+	for (; n && guard++ < 100000; prev = n, n = n->next) {
+		if (n->prev != prev) gbroken = "prev-mismatch";
+		if (n->parent != parent) gbroken = "parent-mismatch";
+		if (depth < 200) check_links(n->children, n, depth + 1);
+	}
+}
+static void check_global(void)
+{
+	MPT_STRUCT(path) p = MPT_PATH_INIT;
+	MPT_INTERFACE(metatype) *mt;
+	MPT_STRUCT(node) *n = 0;
+	int used[256], i, sepc = 0;
+	gbroken = 0;
+	if (gfirst_len < 0) return;
+	memset(used, 0, sizeof(used));
+	for (i = 0; i < gfirst_len; i++) used[(uint8_t) gfirst[i]] = 1;
+	for (i = 1; i < 256; i++) if (!used[i]) { sepc = i; break; }
+	if (!sepc) return;
+	p.sep = sepc; p.assign = 0;
+	mpt_path_set(&p, gfirst, -1);
+	if (!(mt = mpt_config_global(&p))) return;
+	if (MPT_metatype_convert(mt, MPT_ENUM(TypeNodePtr), &n) < 0) n = 0;
+	mt->_vptr->unref(mt);
+	if (!n) { gbroken = "top-not-found"; return; }
+	if (n->parent) gbroken = "top-has-parent";
+	for (i = 0; n->prev && i < 100000; i++) n = n->prev;
+	check_links(n, 0, 0);
+}
 static int cmp_str(const void *a, const void *b)
 {
 	return strcmp(*(char * const *) a, *(char * const *) b);
@@ -194,7 +238,10 @@ static void result(const char *verdict, const char *ret)
 	printf("R %s | C G[", verdict);
 	c.len = 0; c.path[0] = 0; c.depth = 0;
 	dumplen = 0; dump[0] = 0;
+	gfirst_len = -1;
 	mpt_config_query(0, &p, walk_top, &c);
+	check_global();
+	if (gbroken) printf("BROKEN:%s ", gbroken);
 	put_pairs();
 	fputs("]P[", stdout);
 	c.len = 0; c.path[0] = 0; c.depth = 0;
